@@ -135,7 +135,8 @@ func (e *Env) eval(ex Expr) Value {
 				e.errf("%v", err)
 			}
 			s := x.TM.Sort(t)
-			name := b.Name + "!b"
+			x.bvSeq++
+			name := fmt.Sprintf("%s!b%d", b.Name, x.bvSeq)
 			n.vars[b.Name] = Value{Term: name, Sort: s, Typ: t}
 			bs = append(bs, fmt.Sprintf("(%s %s)", name, s))
 		}
@@ -337,16 +338,18 @@ func (e *Env) sel(ex *ESel) Value {
 	x := e.x
 	// package-qualified?
 	if id, ok := ex.X.(*EIdent); ok {
-		if _, isVar := e.vars[id.Name]; !isVar {
-			isLocal := false
-			if e.locals != nil {
-				_, isLocal = e.locals(id.Name)
-			}
-			if !isLocal {
-				if tp := e.lookupPkgName(id.Name); tp != nil {
-					if v, ok := e.pkgMember(tp.Path(), ex.Name); ok {
-						return v
-					}
+		vv, isVar := e.vars[id.Name]
+		isLocal := false
+		if !isVar && e.locals != nil {
+			vv, isLocal = e.locals(id.Name)
+		}
+		shadow := (isVar || isLocal) && valueHasField(vv, ex.Name)
+		if !shadow {
+			if tp := e.lookupPkgName(id.Name); tp != nil {
+				if v, ok := e.pkgMember(tp.Path(), ex.Name); ok {
+					return v
+				}
+				if !isVar && !isLocal {
 					e.errf("unknown member %s.%s", id.Name, ex.Name)
 				}
 			}
@@ -470,6 +473,9 @@ func (e *Env) index(ex *EIndex) Value {
 	}
 	switch u := types.Unalias(b.Typ).Underlying().(type) {
 	case *types.Slice:
+		if x.exploded(u.Elem()) {
+			return x.loadObject(e.st, x.elemRef(app("sbase", b.Term), i.Term), u.Elem())
+		}
 		es := x.TM.Sort(u.Elem())
 		inner := Select(x.elemArr(e.st, es), app("sbase", b.Term))
 		return x.mk(Select(inner, i.Term), u.Elem())
@@ -481,6 +487,9 @@ func (e *Env) index(ex *EIndex) Value {
 		return x.mk(Select(b.Term, i.Term), u.Elem())
 	case *types.Pointer:
 		if arr, ok := types.Unalias(u.Elem()).Underlying().(*types.Array); ok {
+			if x.exploded(arr.Elem()) {
+				return x.loadObject(e.st, x.elemRef(x.asTerm(b), i.Term), arr.Elem())
+			}
 			es := x.TM.Sort(arr.Elem())
 			inner := Select(x.elemArr(e.st, es), x.asTerm(b))
 			return x.mk(Select(inner, i.Term), arr.Elem())
@@ -537,6 +546,19 @@ func (e *Env) call(ex *ECall) Value {
 		case "box":
 			v := e.eval(ex.Args[0])
 			return x.makeIface(v, v.Typ, types.NewInterfaceType(nil, nil))
+		case "elemptr":
+			sl := e.eval(ex.Args[0])
+			k := e.eval(ex.Args[1])
+			u, ok := types.Unalias(sl.Typ).Underlying().(*types.Slice)
+			if !ok {
+				e.errf("elemptr needs a slice")
+			}
+			if x.exploded(u.Elem()) {
+				r := x.elemRef(app("sbase", sl.Term), k.Term)
+				return Value{Term: r, Sort: SInt, Typ: types.NewPointer(u.Elem())}
+			}
+			es := x.TM.Sort(u.Elem())
+			return Value{Typ: types.NewPointer(u.Elem()), Sort: SInt, Ptr: &Pointer{Base: app("sbase", sl.Term), Steps: []Step{{IsIndex: true, Index: k.Term, Struct: u.Elem()}}, Elem: u.Elem(), ElemBaseSort: es}}
 		case "bigval":
 			v := e.eval(ex.Args[0])
 			f := x.D.Fun("bigval", []string{SInt}, SInt)
@@ -767,4 +789,22 @@ func (x *Exec) callCount(st *State, name string) string {
 		return t
 	}
 	return "0"
+}
+
+func valueHasField(v Value, name string) bool {
+	if v.Tup != nil {
+		return true
+	}
+	if v.Typ == nil {
+		return false
+	}
+	t := types.Unalias(v.Typ)
+	if pt, ok := t.Underlying().(*types.Pointer); ok {
+		t = types.Unalias(pt.Elem())
+	}
+	if st, ok := t.Underlying().(*types.Struct); ok {
+		i, _ := findField(st, name)
+		return i >= 0
+	}
+	return false
 }
